@@ -16,12 +16,55 @@ def bound_of(atom):
     return {k.items[0].value: k.items[1] for k in atom[2]}
 
 
+def body_feasible(b, lp):
+    """False when the conditions collected in one pass through the loop body contradict each other in the linear domain
+    (with floor-half and min/max axioms), e.g. `the windows intersect` together with `their intersection is empty`"""
+    from .. import linear
+    try:
+        alts = [[]]
+        for c, pol, _ in b.conds[lp['n_pre_conds']:]:
+            alts = [x + y for x in alts for y in linear.disjuncts(c, pol)]
+            if len(alts) > 64:
+                return True
+        def sizeish(a):
+            # array sizes, the oversampling factor and their products are at least 1
+            if a[0] == 'mono':
+                return all(sizeish(x) and e > 0 for x, e in a[1])
+            if a[0] == 'sym':
+                return a[1] == 'oversample'
+            if a[0] == 'idx':
+                return sizeish(a[1]) or (a[1][0] == 'sym' and a[1][1] in ('shape', 'prop_shape')) or (a[1][0] == 'attr' and a[1][2] == 'shape')
+            return a[0] == 'attr' and a[2] == 'shape'
+        for alt in alts:
+            atoms = set()
+            for c, _ in alt:
+                atoms |= set(c.atoms(deep=True))
+            for cons in linear.conj_constraints(alt):
+                seen = set(atoms)
+                for l in cons:
+                    seen |= set(l.coefs)
+                sizes = [linear.le(linear.Lin({}, 1), linear.Lin({a: 1})) for a in seen if sizeish(a)]
+                # a bounding box (rmin, rmax, cmin, cmax) has rmin <= rmax and cmin <= cmax
+                boxes = {a[1] for a in seen if a[0] == 'idx' and a[1][0] == 'app' and a[1][1].split('.')[-1] == 'boundary'}
+                for bx in boxes:
+                    for i, j in ((0, 1), (2, 3)):
+                        sizes.append(linear.le(linear.linearise(nf.index(Poly.atom(bx), nf.Poly.const(i))),
+                                               linear.linearise(nf.index(Poly.atom(bx), nf.Poly.const(j)))))
+                if linear.satisfiable(cons + sizes, atoms):
+                    return True
+        return False
+    except linear.NotLinear:
+        return True
+
+
 def transform_events(p):
     """events of the path with, inside the per-field loop, only those of the body state that transforms"""
     events = list(p.events)
     for lp in p.state.loops:
         hit = [b for b in lp['states'] if any(e.kind == 'call' and e.data.get('callee') == 'fourier.dft2'
                                                for e in b.events[lp['n_pre_events']:])]
+        if len(hit) > 1:
+            hit = [b for b in hit if body_feasible(b, lp)] or hit
         if hit:
             mine = {id(e) for e in hit[0].events}
             others = {id(e) for b in lp['states'] if b is not hit[0] for e in b.events} - mine
